@@ -1,6 +1,6 @@
 (* C19 -- proofs about the diagnostics model. *)
 From Coq Require Import QArith Qround ZArith List Bool Arith Lia Lqa Permutation.
-From TJ Require Import Base.Corr Model.Diagnostics.
+From TJ Require Import Base.Corr Base.XQ Base.ArgMax Model.Diagnostics.
 Import ListNotations.
 Open Scope Q_scope.
 
@@ -218,62 +218,12 @@ Proof.
 Qed.
 
 (* ---- MAP_sample: the returned index holds a maximum, and is the first one ---- *)
-Lemma argmax_from_spec l : forall k best bv pre,
-  length pre = k -> (best < k)%nat -> nth best pre 0 = bv ->
-  (forall i, (i < k)%nat -> nth i pre 0 <= bv) ->
-  (forall i, (i < best)%nat -> ~ bv <= nth i pre 0) ->
-  let r := argmax_from k best bv l in
-  (r < k + length l)%nat /\
-  (forall i, (i < k + length l)%nat -> nth i (pre ++ l) 0 <= nth r (pre ++ l) 0) /\
-  (forall i, (i < r)%nat -> ~ nth r (pre ++ l) 0 <= nth i (pre ++ l) 0).
-Proof.
-  induction l as [|x l IH]; intros k best bv pre Hk Hb Hbv Hle Hfirst; cbn [argmax_from].
-  - cbn [length]. rewrite Nat.add_0_r, app_nil_r. repeat split.
-    + exact Hb.
-    + intros i Hi. rewrite Hbv. apply Hle, Hi.
-    + intros i Hi. rewrite Hbv. apply Hfirst, Hi.
-  - destruct (Qle_bool x bv) eqn:E.
-    + apply Qle_bool_iff in E.
-      specialize (IH (S k) best bv (pre ++ [x])).
-      rewrite <- app_assoc in IH. cbn [app length] in *.
-      replace (k + S (length l))%nat with (S k + length l)%nat by lia.
-      apply IH.
-      * rewrite app_length. cbn. lia.
-      * lia.
-      * rewrite app_nth1 by lia. exact Hbv.
-      * intros i Hi. destruct (Nat.eq_dec i k) as [->|Hne].
-        -- rewrite app_nth2 by lia. rewrite Hk, Nat.sub_diag. exact E.
-        -- rewrite app_nth1 by lia. apply Hle. lia.
-      * intros i Hi. rewrite app_nth1 by lia. apply Hfirst, Hi.
-    + assert (Hlt : ~ x <= bv) by (intros C; apply Qle_bool_iff in C; congruence).
-      apply Qle_bool_false in E.
-      specialize (IH (S k) k x (pre ++ [x])).
-      rewrite <- app_assoc in IH. cbn [app length] in *.
-      replace (k + S (length l))%nat with (S k + length l)%nat by lia.
-      apply IH.
-      * rewrite app_length. cbn. lia.
-      * lia.
-      * rewrite app_nth2 by lia. rewrite Hk, Nat.sub_diag. reflexivity.
-      * intros i Hi. destruct (Nat.eq_dec i k) as [->|Hne].
-        -- rewrite app_nth2 by lia. rewrite Hk, Nat.sub_diag. cbn. lra.
-        -- rewrite app_nth1 by lia. eapply Qle_trans; [apply Hle; lia|exact E].
-      * intros i Hi. rewrite app_nth1 by lia. intros C.
-        assert (nth i pre 0 <= bv) by (apply Hle; lia).
-        apply Hlt. lra.
-Qed.
-
-Lemma argmax_spec l : l <> [] ->
-  let r := argmax l in
+Lemma map_index_spec (l : list XQ) : l <> [] ->
+  let r := gargmax xq_leb l in
   (r < length l)%nat /\
-  (forall i, (i < length l)%nat -> nth i l 0 <= nth r l 0) /\
-  (forall i, (i < r)%nat -> ~ nth r l 0 <= nth i l 0).
-Proof.
-  destruct l as [|x l]; [congruence|]. intros _. unfold argmax.
-  pose proof (argmax_from_spec l 1%nat 0%nat x [x] eq_refl ltac:(lia) eq_refl) as H.
-  cbn [app length Nat.add] in H. apply H.
-  - intros i Hi. assert (i = 0)%nat by lia. subst. cbn. lra.
-  - intros i Hi. lia.
-Qed.
+  (forall i, (i < length l)%nat -> xq_leb (nth i l XNInf) (nth r l XNInf) = true) /\
+  (forall i, (i < r)%nat -> xq_leb (nth r l XNInf) (nth i l XNInf) = false).
+Proof. apply gargmax_spec; [exact xq_leb_total|exact xq_leb_trans]. Qed.
 
 (* ---- order independence ---- *)
 Definition canonical (q : Q) : Prop := Qred q = q.
